@@ -14,6 +14,14 @@ import (
 	"time"
 )
 
+var restartEvery = 100
+
+func init() {
+	if v := os.Getenv("GOSYM_RESTART"); v != "" {
+		fmt.Sscan(v, &restartEvery)
+	}
+}
+
 type Result int
 
 const (
@@ -45,10 +53,12 @@ type Solver struct {
 	TimeoutMs int
 	Log       io.Writer
 	lastErr   string
+	RestartEvery int
+	sinceRestart int
 }
 
 func NewSolver(st *TermStore, bin string, timeoutMs int) (*Solver, error) {
-	s := &Solver{Bin: bin, st: st, TimeoutMs: timeoutMs}
+	s := &Solver{Bin: bin, st: st, TimeoutMs: timeoutMs, RestartEvery: restartEvery}
 	if err := s.start(); err != nil {
 		return nil, err
 	}
@@ -80,6 +90,7 @@ func (s *Solver) start() error {
 	s.declUF = map[string]bool{}
 	s.declTab = map[int]bool{}
 	s.nDefs = 0
+	s.sinceRestart = 0
 	s.send("(set-option :produce-models true)")
 	if !strings.Contains(s.Bin, "cvc5") {
 		s.send(fmt.Sprintf("(set-option :timeout %d)", s.TimeoutMs))
@@ -173,12 +184,9 @@ func (s *Solver) emit(x *Term) {
 		tb := s.st.tabs[x.K]
 		if !s.declTab[tb.ID] {
 			s.declTab[tb.ID] = true
-			s.send(fmt.Sprintf("(declare-const tbl%d (Array (_ BitVec %d) (_ BitVec %d)))", tb.ID, tb.IdxW, tb.ElemW))
-			for i, v := range tb.Vals {
-				s.send(fmt.Sprintf("(assert (= (select tbl%d %s) %s))", tb.ID, smtConst(tb.IdxW, uint64(i)), smtConst(tb.ElemW, v)))
-			}
+			s.send(fmt.Sprintf("(define-fun tbl%d ((i (_ BitVec %d))) (_ BitVec %d) %s)", tb.ID, tb.IdxW, tb.ElemW, muxTree(tb, tb.IdxW-1, 0)))
 		}
-		fmt.Fprintf(&body, "(select tbl%d %s)", tb.ID, s.ref(x.Args[0]))
+		fmt.Fprintf(&body, "(tbl%d %s)", tb.ID, s.ref(x.Args[0]))
 	case OpUF:
 		if !s.declUF[x.Name] {
 			s.declUF[x.Name] = true
@@ -209,6 +217,21 @@ func (s *Solver) emit(x *Term) {
 	s.send(fmt.Sprintf("(define-fun t%d () %s %s)", x.ID, sortStr(x.W), body.String()))
 }
 
+// muxTree renders a constant table as a balanced multiplexer over the index
+// bits (measured: an order of magnitude faster than array-theory selects in
+// z3's incremental mode).
+func muxTree(tb *Table, bit int, lo int) string {
+	if bit < 0 {
+		return smtConst(tb.ElemW, tb.Vals[lo])
+	}
+	a := muxTree(tb, bit-1, lo+(1<<uint(bit)))
+	b := muxTree(tb, bit-1, lo)
+	if a == b {
+		return a
+	}
+	return fmt.Sprintf("(ite (= ((_ extract %d %d) i) #b1) %s %s)", bit, bit, a, b)
+}
+
 func (s *Solver) readLine() (string, error) {
 	line, err := s.out.ReadString('\n')
 	return strings.TrimSpace(line), err
@@ -219,6 +242,10 @@ func (s *Solver) Check(lits []*Term) Result {
 	t0 := time.Now()
 	defer func() { s.Wall += time.Since(t0) }()
 	s.Queries++
+	s.sinceRestart++
+	if s.RestartEvery > 0 && s.sinceRestart > s.RestartEvery {
+		s.Restart()
+	}
 	var ls []string
 	for _, l := range lits {
 		if l.IsTrue() {
